@@ -224,8 +224,8 @@ def linkattr (rel p w : Bytes) (real : List String) : String :=
 /-- `<elem attr="P{{.A}}M{{.B}}">`: two actions in one attribute value. Only the claims that do not need the
     position of the data inside the value: no quote, scheme fixed by the first static prefix, and (TrustedResourceURL)
     no ".." path segment beyond those of the static text. A new ".." segment here is the known finding
-    `adjacent-actions-dotdot` (each substitution is validated alone), unless the op degenerates to a single action
-    directly after the static prefix (M and B empty). -/
+    `adjacent-actions-dotdot` (each substitution is validated alone) when it straddles the end of the first value
+    and the text after it; not when the first value adds it alone or when it arises without the first value. -/
 def urlattr2 (elem attr p a mid b : Bytes) (real : List String) : String :=
   match ctxOf elem attr with
   | none => "fail:unknown-template"
@@ -248,7 +248,10 @@ def urlattr2 (elem attr p a mid b : Bytes) (real : List String) : String :=
     if whatwgScheme bd != whatwgScheme (CharRef.decodeAttr p) then "fail:scheme-changed"
     else if whatwgScheme bd == some javascript then "fail:javascript-scheme"
     else if ctx == .tru && dotDotSegments bd > dotDotSegments bs then
-      (if mid.isEmpty && b.isEmpty then "fail:tru-new-dotdot-segment"
+      -- the listed finding is the segment that straddles the END of the first value and what follows it; a segment
+      -- that the first value adds on its own, or that arises without it (static text + second value), is not listed
+      (if (mid.isEmpty && b.isEmpty) || dotDotSegments (CharRef.decodeAttr (p ++ a)) > dotDotSegments (CharRef.decodeAttr p)
+          || dotDotSegments (CharRef.decodeAttr (p ++ [120] ++ mid ++ b)) > dotDotSegments bs then "fail:tru-new-dotdot-segment"
        else "fail:tru-new-dotdot-segment:adjacent-actions-dotdot")
     else "pass"
   | _ => "fail:unparsable-real-result"
